@@ -224,7 +224,7 @@ class C35(ValueCheck):
                    "non-literal bases of non-integer powers on / near the negative real axis, points where e is undefined, "
                    "infinite or ill-conditioned are skipped", "the value of the canonical tree of e must agree with the "
                    "recipe's, otherwise the point is left to C07 / C08", "an exception from refine / simplify declines the call"]
-    tiers = {"quick": {"examples": 2400}, "thorough": {"examples": 80000}}
+    tiers = {"quick": {"examples": 2400}, "thorough": {"examples": 60000}}
     min_nontrivial = 20
     MARGIN = 1e-6
 
